@@ -2,6 +2,7 @@
 //! dropping / keeping / reordering fields, methods and interfaces per side (shapes: interleaving, prefix, suffix,
 //! middle, permutation, disjoint, ...), so the expectation is known by construction of the input, not by running any merge.
 use crate::jar::{Body, RawEntry};
+use crate::oracle::{Side, ENV, ENV_ITF, ENV_ITFS, ENV_TYPE};
 use cf::{emit, gen::{self, GenCfg, G}, model::*, parse};
 use common::Rng;
 use std::collections::HashSet;
@@ -79,6 +80,37 @@ pub fn make_keys_unique(c: &mut Class) {
     // one InnerClasses entry per inner class (JVMS 4.7.6)
     let mut seen = HashSet::new();
     if let Some(l) = &mut c.inner_classes { l.retain(|i| seen.insert(i.inner.clone())); }
+}
+
+
+pub fn env_mark(side: Side) -> Annotation { Annotation { type_: JS(ENV.to_vec()), pairs: vec![(JS::new("value"), ElementValue::Enum(JS(ENV_TYPE.to_vec()), JS(side.constant().to_vec())))] } }
+pub fn itf_mark(items: &[(JS, Side)]) -> Annotation {
+    let items = items.iter().map(|(itf, side)| {
+        let mut d = vec![b'L']; d.extend(&itf.0); d.push(b';');
+        ElementValue::Annotation(Annotation { type_: JS(ENV_ITF.to_vec()), pairs: vec![(JS::new("value"), ElementValue::Enum(JS(ENV_TYPE.to_vec()), JS(side.constant().to_vec()))), (JS::new("itf"), ElementValue::Class(JS(d)))] })
+    }).collect();
+    Annotation { type_: JS(ENV_ITFS.to_vec()), pairs: vec![(JS::new("value"), ElementValue::Array(items))] }
+}
+fn any_side(rng: &mut Rng) -> Side { if rng.bool() { Side::Client } else { Side::Server } }
+fn flip(s: Side) -> Side { match s { Side::Client => Side::Server, Side::Server => Side::Client } }
+/// one mark (sometimes marks of both sides) in the visible or the invisible list
+fn push_marks(rng: &mut Rng, vis: &mut Vec<Annotation>, invis: &mut Vec<Annotation>, visible_likely: bool) {
+    let side = any_side(rng);
+    let visible = if visible_likely { !rng.chance(1, 4) } else { rng.chance(1, 4) };
+    if visible { vis.push(env_mark(side)); } else { invis.push(env_mark(side)); }
+    if rng.chance(1, 6) { if rng.bool() { vis.push(env_mark(flip(side))); } else { invis.push(env_mark(flip(side))); } }
+}
+/// makes `c` look like a class that went through a merge before (or was annotated by hand): side marks on the class,
+/// on some members (1 in `dens`) and on some interfaces — for either side, in either annotation list
+pub fn premark_class(rng: &mut Rng, c: &mut Class, dens: u32) {
+    if rng.bool() { push_marks(rng, &mut c.vis_annotations, &mut c.invis_annotations, true); }
+    for f in &mut c.fields { if rng.chance(1, dens) { push_marks(rng, &mut f.vis_annotations, &mut f.invis_annotations, false); } }
+    for m in &mut c.methods { if rng.chance(1, dens) { push_marks(rng, &mut m.vis_annotations, &mut m.invis_annotations, false); } }
+    if !c.interfaces.is_empty() && rng.bool() {
+        let mut items: Vec<(JS, Side)> = vec![];
+        for i in &c.interfaces { if rng.bool() { items.push((i.clone(), any_side(rng))); } }
+        if !items.is_empty() { if rng.chance(1, 4) { c.vis_annotations.push(itf_mark(&items)); } else { c.invis_annotations.push(itf_mark(&items)); } }
+    }
 }
 
 pub fn gen_cfg() -> GenCfg { GenCfg { max_fields: 5, max_methods: 6, max_insns: 25, modules: false, ..Default::default() } }
@@ -168,6 +200,8 @@ pub struct PairCfg {
     pub differing_resources: bool,
     pub simple_classes: bool,
     pub list_max: usize,
+    /// 1 in `premark` classes arrive already carrying Environment / EnvironmentInterfaces annotations (0 = none)
+    pub premark: u32,
 }
 
 fn res_bytes(rng: &mut Rng) -> Vec<u8> {
@@ -195,7 +229,9 @@ pub fn gen_pair(rng: &mut Rng, pc: &PairCfg) -> Planned {
         let name = format!("{stem}.class");
         let lens = |rng: &mut Rng| if rng.chance(1, 8) { 0 } else { rng.usize_in(0, pc.list_max) };
         let (nf, nm, ni) = (lens(rng), lens(rng), if rng.bool() { 0 } else { rng.usize_in(0, pc.list_max.min(5)) });
-        let base = if pc.simple_classes && !rng.chance(1, 5) { simple_class(rng, &stem, nf, nm, ni) } else { rich_class(rng, &cfg, &stem, nf, nm, ni) };
+        let mut base = if pc.simple_classes && !rng.chance(1, 5) { simple_class(rng, &stem, nf, nm, ni) } else { rich_class(rng, &cfg, &stem, nf, nm, ni) };
+        let premarked = pc.premark > 0 && rng.chance(1, pc.premark);
+        if premarked { premark_class(rng, &mut base, 3); }
         let push = |jar: &mut JarSpec, rng: &mut Rng, model: &Class, bytes: Vec<u8>| jar.entries.push(Entry { name: name.clone(), item: Item::Class(ClassSide { model: model.clone(), bytes }), deflate: rng.bool() });
         let mut shapes = None;
         let r: Result<(), String> = (|| {
@@ -211,7 +247,9 @@ pub fn gen_pair(rng: &mut Rng, pc: &PairCfg) -> Planned {
                 Cat::Differing => {
                     let sh = [*rng.pick(&SHAPES), *rng.pick(&SHAPES), *rng.pick(&SHAPES)];
                     let tweak = rng.chance(1, 5);
-                    let d = derive_sides(rng, &base, sh, tweak);
+                    let mut d = derive_sides(rng, &base, sh, tweak);
+                    // marks that only ONE version carries (shared members then arrive marked on one side / differently)
+                    if premarked && rng.bool() { let side = if rng.bool() { &mut d.client } else { &mut d.server }; premark_class(rng, side, 4); }
                     let (a, b) = (emit_checked(&d.client, &layout(rng))?, emit_checked(&d.server, &layout(rng))?);
                     push(&mut client, rng, &d.client, a); push(&mut server, rng, &d.server, b);
                     shapes = Some(sh);
